@@ -1,5 +1,6 @@
 import OW.Proofs.JsonNest
 import OW.Proofs.JsonGlue
+import OW.Proofs.JsonEncode
 import OW.Proofs.NdC01Ops
 /-!
 C17 — the JSON single-model runner is equivalent to a direct run and always answers.
@@ -27,17 +28,6 @@ theorem jsonSafeValue_spec (x : α) :
       else .num x := by
   unfold jsonSafeValue sprintNonFinite isInf0
   cases JNum.isNaN x <;> cases JNum.isPosInf x <;> cases JNum.isNegInf x <;> simp
-
-/-- in-bounds tail index, padded with zeros on the left, is an in-bounds index of the view -/
-theorem inBounds_pad : ∀ (sd : Nat) (dims tail : Idx), Pos dims → InBounds tail (dims.drop sd) →
-    sd ≤ dims.length → InBounds (uniform sd 0 ++ tail) dims
-  | 0, dims, tail, _, h, _ => by simpa [uniform] using h
-  | sd + 1, [], tail, _, _, hl => by simp at hl
-  | sd + 1, d :: ds, tail, hp, h, hl => by
-    have h1 : 1 ≤ d := hp d (by simp)
-    have ih := inBounds_pad sd ds tail (fun x hx => hp x (by simp [hx])) (by simpa using h) (by simpa using hl)
-    simp only [uniform_succ, List.cons_append, InBounds_cons]
-    exact ⟨by omega, by omega, ih⟩
 
 /-- **nesting_spec.** For every reachable view (root array or any chain of in-bounds, possibly stepped slices) held in
 a storage that covers it, and every valid shift dimension `sd`, `JsonSafeArray(view, sd)` does not panic and returns
@@ -93,7 +83,7 @@ theorem shiftDim_out_of_range {h : Heap α} {a : Arr} (hne : a.v.dims ≠ []) (s
 
 example : jsonSafeArray (α := α) [[JNum.zero, JNum.zero]] ⟨rootView [2] 0, 0, 0, 2, false⟩ 0 =
     .ok [jsonSafeValue JNum.zero, jsonSafeValue JNum.zero] := by
-  simp [jsonSafeArray, jsonSafeArrayF, lenI, View.len, rootView, View.ndims, View.newIndex, uniform, fillTo,
+  simp [jsonSafeArray, jsonSafeArrayF, lenI, View.len, rootView, View.ndims, View.newIndex, uniform,
     Nd.get, View.index, View.indexAux, readAt, storeOf, offsetsT, bind, Except.bind, pure, Except.pure, List.range,
     List.range.loop]
 
@@ -161,6 +151,213 @@ theorem unequal_inputs_reported (cat : String → Option (ModelDesc α)) (K : Ke
       { inputs := none, warnings := [""] ++ paramWarnings m.parameters desc.params } with
   | error msg => exact ⟨msg, rfl⟩
   | ok s => exact absurd (inputLoop_none_ok m.inputs _ hpos desc.inputs 0 _ s rfl hl) hne
+
+/-! ## encodeResults and the whole runner -/
+
+/-- one output / state row as JSON: the array of its values, each through `JsonSafeValue` -/
+def rowJson (o : List α) : JVal α := .arr (o.map jsonSafeValue)
+
+/-- the response document for a completed run: the log, the outputs (an object keyed by output name when split, else
+the `[nOut][T]` nested array) and ALL final states (an object keyed by state name when split and the state row is as
+wide as the list of names, else the plain array) -/
+def resultDoc (logs : List String) (desc : ModelDesc α) (split : Bool) (outs : List (List α)) (states : List α) :
+    JVal α :=
+  document (some logs)
+    (if split = true then .obj desc.outputs (outs.map rowJson) else .arr (outs.map rowJson))
+    (if split = true ∧ states.length = desc.states.length then .obj desc.states (states.map jsonSafeValue)
+     else .arr (states.map jsonSafeValue))
+
+/-- a problem report: the log line(s), `Outputs` and `States` null -/
+def problemDoc (logs : List String) : JVal α := document (some logs) .null .null
+
+/-- **encode_spec.** `encodeResults` on the arrays of a completed run (outputs `1×nOut×T` holding the rectangular block
+`outs`, states `1×W`) never panics and writes `resultDoc` — for every `nOut`, `T`, `W`, zero included. All the n-d array
+plumbing (`MustReshape`, row `Slice`s, `JsonSafeArray`) is covered. -/
+theorem encode_spec (logs : List String) (hl : logs ≠ []) (desc : ModelDesc α) (split : Bool) (T : Nat)
+    (outs : List (List α)) (states : List α)
+    (hrows : outs.length = desc.outputs.length) (hrect : ∀ o ∈ outs, o.length = T)
+    (hno : desc.outputs.Nodup) (hns : desc.states.Nodup) :
+    encodeResults (logged logs) (some (outs, states)) T desc split = .ok (resultDoc logs desc split outs states) := by
+  have hlg : logged logs = some logs := by
+    cases logs with
+    | nil => exact absurd rfl hl
+    | cons _ _ => rfl
+  simp only [encodeResults, encodeOutputs_spec outs T desc.outputs split hrect hrows.symm hno,
+    encodeStates_spec states desc.states split hns, bind, Except.bind, pure, Except.pure, hlg, resultDoc]
+  rfl
+
+/-- **respond_eq_direct.** For every request that names a catalogued model, supplies at least one of its inputs and
+only series of one length `T`: the runner writes exactly one document and returns; the document's outputs and final
+states are those of the DIRECT one-cell run (`K.run`) on the parameter column "named value, default otherwise"
+(`effParams`) and the input block "supplied series, `T` zeros otherwise" (`effInputs`) — bit for bit, non-finite values as
+the three strings, nested like the dimensions — and its log is the empty first line followed by exactly one line per
+defaulted parameter and one per zero-filled input, in description order. Parameters and inputs may come in any order,
+with duplicates (first wins) and unknown names (ignored); the `States` of the request are not used (as in the code).
+Hypotheses on the kernel: it does not panic on this call and returns one row of `T` values per described output. -/
+theorem respond_eq_direct (cat : String → Option (ModelDesc α)) (K : Kernel α) (split : Bool) (m : ParsedRequest α)
+    (desc : ModelDesc α) (T : Nat) (outs : List (List α)) (states : List α)
+    (hname : m.name ≠ "") (hcat : cat m.name = some desc)
+    (hinit : K.init (effParams m.parameters desc.params) = .ok ())
+    (hlen : LengthsAre m.inputs T desc.inputs) (hsome : ¬ NoneSupplied m.inputs desc.inputs)
+    (hrun : K.run (effParams m.parameters desc.params) (effInputs m.inputs T desc.inputs) = .ok outs states)
+    (hrows : outs.length = desc.outputs.length) (hrect : ∀ o ∈ outs, o.length = T)
+    (hno : desc.outputs.Nodup) (hns : desc.states.Nodup) :
+    respond cat K split (.inl m) =
+      { written := [resultDoc ([""] ++ paramWarnings m.parameters desc.params ++ inputWarnings m.inputs desc.inputs)
+                      desc split outs states],
+        ending := .returned } := by
+  have hT : ((effInputs m.inputs T desc.inputs).headD []).length = T := by
+    cases hd : desc.inputs with
+    | nil => exact absurd (fun n hn => by rw [hd] at hn; simp at hn) hsome
+    | cons n ns =>
+      simp only [effInputs, List.map_cons, List.headD_cons]
+      exact effInput_length (hlen n (by rw [hd]; simp))
+  unfold respond
+  simp only [warnings_complete cat K m desc T hname hcat hinit hlen hsome, hT, hrun, finish]
+  rw [encode_spec _ (by simp) desc split T outs states hrows hrect hno hns]
+
+/-- what the kernel must not do for the runner to be able to answer: `InitialiseStates` and `Run` do not panic, and `Run`
+fills one row per described output with one value per time step (true of every generated wrapper) -/
+structure KernelOK (K : Kernel α) (desc : ModelDesc α) : Prop where
+  init : ∀ p, K.init p = .ok ()
+  run : ∀ p ins, ∃ outs states, K.run p ins = .ok outs states ∧ outs.length = desc.outputs.length ∧
+    ∀ o ∈ outs, o.length = (ins.headD []).length
+  outputs_nodup : desc.outputs.Nodup
+  states_nodup : desc.states.Nodup
+
+/-- **respond_total.** EVERY request — whatever the bytes decoded to, or the decoder's error — makes the (repaired)
+runner write exactly one JSON document and return, provided the catalogued model's own code does not panic
+(`KernelOK`): no crash state is reachable through the glue (no name, unknown model, no inputs, unequal lengths, missing
+or superfluous or duplicated parameters and inputs, any series length including 0, any state-row width). -/
+theorem respond_total (cat : String → Option (ModelDesc α)) (K : Kernel α) (split : Bool)
+    (hK : ∀ name desc, cat name = some desc → KernelOK K desc) (req : ParsedRequest α ⊕ String) :
+    ∃ doc, respond cat K split req = { written := [doc], ending := .returned } := by
+  cases req with
+  | inr msg => exact ⟨_, rfl⟩
+  | inl m =>
+    rcases initialise_cases cat K (fun name desc h => (hK name desc h).init) m with ⟨msg, hi⟩ | ⟨desc, params, inputs, warnings, hc, hw, hi⟩
+    · exact ⟨problemDoc [msg], by simp only [respond, hi]; rfl⟩
+    · obtain ⟨outs, states, hrun, hrows, hrect⟩ := (hK _ _ hc).run params inputs
+      refine ⟨resultDoc warnings desc split outs states, ?_⟩
+      simp only [respond, hi, hrun, finish]
+      rw [encode_spec warnings hw desc split _ outs states hrows hrect (hK _ _ hc).outputs_nodup
+        (hK _ _ hc).states_nodup]
+
+/-- the problem reports of the glue, exactly: decoder error, no name, unknown model — one document with the message
+as its only log line and null results -/
+theorem problem_reports (cat : String → Option (ModelDesc α)) (K : Kernel α) (split : Bool) :
+    (∀ msg, respond cat K split (.inr msg) = { written := [problemDoc [msg]], ending := .returned }) ∧
+    (∀ m : ParsedRequest α, m.name = "" →
+      respond cat K split (.inl m) = { written := [problemDoc ["No model name provided"]], ending := .returned }) ∧
+    (∀ m : ParsedRequest α, m.name ≠ "" → cat m.name = none →
+      respond cat K split (.inl m) =
+        { written := [problemDoc ["Unknown model: " ++ m.name]], ending := .returned }) := by
+  refine ⟨fun msg => rfl, ?_, ?_⟩
+  · intro m hn
+    simp [respond, initialise, hn, finish_problem, problemDoc]
+  · intro m hn hc
+    simp [respond, initialise, hn, hc, finish_problem, problemDoc]
+
+/-- no usable input, or supplied series of unequal lengths (catalogued model, `InitialiseStates` does not panic): one
+problem report, null results, the call returns -/
+theorem input_problems_reported (cat : String → Option (ModelDesc α)) (K : Kernel α) (split : Bool)
+    (m : ParsedRequest α) (desc : ModelDesc α) (hname : m.name ≠ "") (hcat : cat m.name = some desc)
+    (hinit : K.init (effParams m.parameters desc.params) = .ok ()) :
+    (NoneSupplied m.inputs desc.inputs →
+      respond cat K split (.inl m) = { written := [problemDoc ["No inputs provided"]], ending := .returned }) ∧
+    ((¬ ∃ T, LengthsAre m.inputs T desc.inputs) →
+      ∃ msg, respond cat K split (.inl m) = { written := [problemDoc [msg]], ending := .returned }) := by
+  constructor
+  · intro hnone
+    simp [respond, no_inputs_reported cat K m desc hname hcat hinit hnone, finish_problem, problemDoc]
+  · intro hne
+    obtain ⟨msg, hmsg⟩ := unequal_inputs_reported cat K m desc hname hcat hinit hne
+    exact ⟨msg, by simp [respond, hmsg, finish_problem, problemDoc]⟩
+
+/-- the crash states of the model are exactly the kernel's: a panic in `InitialiseStates` (calling goroutine: the
+deferred `encodeResults` writes a document with a null log first), a panic of `Run` in the calling goroutine (document
+with the warnings, null results), a panic in a goroutine started by `Run` (the process dies, nothing is written) -/
+theorem kernel_crash_states (cat : String → Option (ModelDesc α)) (K : Kernel α) (split : Bool) (m : ParsedRequest α)
+    (desc : ModelDesc α) (T : Nat) (hname : m.name ≠ "") (hcat : cat m.name = some desc)
+    (hlen : LengthsAre m.inputs T desc.inputs) (hsome : ¬ NoneSupplied m.inputs desc.inputs) :
+    (∀ cls, K.init (effParams m.parameters desc.params) = .error cls →
+      respond cat K split (.inl m) = { written := [document none .null .null], ending := .panicked cls }) ∧
+    (K.init (effParams m.parameters desc.params) = .ok () →
+      (∀ cls, K.run (effParams m.parameters desc.params) (effInputs m.inputs T desc.inputs) = .died cls →
+        respond cat K split (.inl m) = { written := [], ending := .died cls }) ∧
+      (∀ cls, K.run (effParams m.parameters desc.params) (effInputs m.inputs T desc.inputs) = .panic cls →
+        respond cat K split (.inl m) =
+          { written := [problemDoc ([""] ++ paramWarnings m.parameters desc.params ++ inputWarnings m.inputs desc.inputs)],
+            ending := .panicked cls })) := by
+  constructor
+  · intro cls hi
+    simp [respond, initialise, hname, hcat, paramLoop_spec, hi, finish, encodeResults, logged]
+  · intro hinit
+    have hw := warnings_complete cat K m desc T hname hcat hinit hlen hsome
+    constructor
+    · intro cls hr
+      simp only [respond, hw, hr]
+    · intro cls hr
+      simp only [respond, hw, hr, finish, encodeResults]
+      simp [logged, problemDoc]
+
+/-! ## non-vacuity -/
+
+section Example
+/-- a toy number type: 0 = zero, 1 = NaN, 2 = +Inf, 3 = -Inf, others finite -/
+instance : JNum Nat where
+  zero := 0
+  isNaN x := x == 1
+  isPosInf x := x == 2
+  isNegInf x := x == 3
+  fmt6 x := toString x ++ ".000000"
+
+def toyDesc : ModelDesc Nat :=
+  { params := [⟨"a", 7⟩, ⟨"b", 9⟩], inputs := ["rain", "pet"], states := ["s"], outputs := ["q", "e"] }
+
+/-- a kernel that echoes: outputs = the two input rows, state = first parameter -/
+def toyKernel : Kernel Nat :=
+  { init := fun _ => .ok (), run := fun p ins => .ok ins [p.headD 0] }
+
+def toyReq : ParsedRequest Nat :=
+  { name := "Toy", inputs := [⟨"pet", some [1, 2, 3]⟩], states := [], parameters := [⟨"b", 5⟩, ⟨"zz", 1⟩] }
+
+/-- the hypotheses of `respond_eq_direct` are satisfiable, and the response is what the statement says: default for `a`
+logged, `rain` zero-filled and logged, NaN / +Inf / -Inf in the supplied series come back as the three strings -/
+example : respond (fun n => if n = "Toy" then some toyDesc else none) toyKernel true (.inl toyReq) =
+    { written := [document (some ["", "a not found, using default=7.000000", "Missing input: rain, using 0"])
+        (.obj ["q", "e"] [.arr [.num 0, .num 0, .num 0], .arr [.str "NaN", .str "+Inf", .str "-Inf"]])
+        (.obj ["s"] [.num 7])],
+      ending := .returned } := by
+  have h := respond_eq_direct (fun n => if n = "Toy" then some toyDesc else none) toyKernel true toyReq toyDesc 3
+    [[0, 0, 0], [1, 2, 3]] [7] (by decide) rfl rfl
+    (by intro n hn vs hv
+        simp only [toyDesc, List.mem_cons, List.mem_nil_iff, or_false] at hn
+        rcases hn with rfl | rfl
+        · simp [toyReq, findInput] at hv
+        · simp [toyReq, findInput] at hv; subst hv; rfl)
+    (by intro hnone; have := hnone "pet" (by simp [toyDesc]); simp [toyReq, findInput] at this)
+    (by rfl) rfl (by intro o ho; simp at ho; rcases ho with rfl | rfl <;> rfl) (by decide) (by decide)
+  rw [h]
+  rfl
+
+/-- `KernelOK` is satisfiable (so `respond_total` is not vacuous): the echo kernel on a description with two inputs
+and two outputs — for input blocks of two rows, which is what `Initialise` builds for it -/
+def toyKernel2 : Kernel Nat :=
+  { init := fun _ => .ok (),
+    run := fun p ins => .ok [ins.headD [], List.replicate (ins.headD []).length 0] [p.headD 0] }
+
+example : KernelOK toyKernel2 toyDesc :=
+  ⟨fun _ => rfl, fun p ins => ⟨_, _, rfl, rfl, by intro o ho; simp at ho; rcases ho with rfl | rfl <;> simp⟩,
+   by decide, by decide⟩
+
+/-- … and a request with no inputs at all gets its single problem report -/
+example : respond (fun n => if n = "Toy" then some toyDesc else none) toyKernel2 true
+    (.inl { name := "Toy", inputs := [], states := [], parameters := [] }) =
+    { written := [problemDoc ["No inputs provided"]], ending := .returned } := by
+  rfl
+
+end Example
 
 end
 end OW.Props.C17
